@@ -52,7 +52,10 @@ func runEntry(entry string, data []byte) string {
 	case entry == "sig":
 		_, err = signature.Parse(string(data))
 	case entry == "idl":
-		_, err = idl.ParsePackage(data)
+		// the package, then the meta-objects of its interfaces (which asks every declared type for its signature)
+		if _, err = idl.ParsePackage(data); err == nil {
+			_, err = idl.ParseIDL(bytes.NewReader(data))
+		}
 	case strings.HasPrefix(entry, "rd:"):
 		var rd signature.TypeReader
 		rd, err = signature.MakeReader(entry[3:])
@@ -581,6 +584,9 @@ func hasZeroSizeElem(t *sigT) bool {
 }
 
 var idlSamples = []string{
+	"struct Node\n\tleft: Node\n\tright: Node\nend\ninterface Tree\n\tfn root() -> Node\nend\n",
+	"struct A\n\tb: B\n\tc: Vec<A>\nend\nstruct B\n\ta: A\n\tb: Map<str,B>\nend\ninterface I\n\tfn f(a: A) -> B\n\tsig s(b: B)\nend\n",
+	"struct L\n\tnext: L\n\tother: Tuple<L,L>\n\tv: int32\nend\ninterface J\n\tprop p(l: L)\nend\n",
 	"package test\ninterface A\n\tfn f(a: int32, b: str) -> bool //uid:100\n\tsig s(x: float32) //uid:101\n\tprop p(v: Vec<str>) //uid:102\nend\n",
 	"struct P\n\tx: int32\n\ty: Map<str,Vec<float64>>\nend\ninterface B\n\tfn g(p: P) -> Tuple<int32,str>\nend\n",
 	"package a.b\nenum E\n\tone = 1\n\ttwo = 2\nend\ninterface C\n\tfn h(e: E) -> any\nend\n",
